@@ -190,6 +190,36 @@ def build() -> Check:
           f"{sorted(g_cls or [])} are unset: with only min_successful configured a failed branch stops the operation and the result "
           "[FAILED, STARTED, ...] is classified ALL_COMPLETED")
 
+    # R3 a threshold of 0 is a policy ("tolerate no failure"), None is "not configured": optional numeric thresholds are compared, never
+    # tested by truthiness (0 and None would be conflated and the branch failure would no longer decide the operation)
+    cc_cls = prog.cls("config", "CompletionConfig")
+    opt_numeric = {f.name for f in cc_cls.all_fields() if f.annotation is not None and "None" in ast.unparse(f.annotation)
+                   and any(t_ in ast.unparse(f.annotation) for t_ in ("int", "float"))}
+    ck.floor("optional_thresholds", len(opt_numeric), 3)
+    ACCEPTED_TRUTHINESS = {("concurrency/executor.py:ConcurrentExecutor.__init__", "min_successful"):
+                           "`min_successful or len(executables)`: 0 and None both mean 'all inputs' (at least one success is needed to decide anyway)"}
+
+    def bool_positions(fn_node):
+        for n in ast.walk(fn_node):
+            if isinstance(n, (ast.If, ast.While, ast.IfExp, ast.Assert)):
+                yield n.test
+            elif isinstance(n, ast.BoolOp):
+                yield from n.values
+            elif isinstance(n, ast.UnaryOp) and isinstance(n.op, ast.Not):
+                yield n.operand
+
+    n_fns = 0
+    for fi in [*counters.methods.values(), *models.classes["BatchResult"].methods.values(), *cex.methods.values()]:
+        if isinstance(fi.node, ast.Lambda):
+            continue
+        n_fns += 1
+        for e in bool_positions(fi.node):
+            nm = e.attr if isinstance(e, ast.Attribute) else (e.id if isinstance(e, ast.Name) else None)
+            if nm in opt_numeric and (fn_construct(fi), nm) not in ACCEPTED_TRUTHINESS:
+                ck.ob("R3.threshold-zero-is-not-unset", fn_construct(fi), False,
+                      f"`{ast.unparse(e)}` is tested by truthiness: a configured threshold of 0 is treated like an unconfigured one", where=f"line {e.lineno}", cell=nm)
+    ck.ob("R3.threshold-zero-is-not-unset", fn_construct(sc), True, f"{n_fns} policy functions scanned for {sorted(opt_numeric)}")
+
     # R5 the policy decision has priority over suspension ----------------------------------------------
     from sa.protocol import done_callback_traces
     fn_dc, dtr = done_callback_traces(pm)
